@@ -63,6 +63,9 @@ pub fn check(case: &Case, st: &mut Stats) -> Result<(), String> {
     if case.ctx == "xml-seq-text" || case.ctx == "xml-seq-attr" {
         return check_xml_seq(case);
     }
+    if case.ctx == "xml-ref-text" || case.ctx == "xml-ref-attr" {
+        return check_xml_ref(case);
+    }
     if case.ctx == "table" {
         return check_table();
     }
@@ -150,6 +153,40 @@ fn xml_eval(attr: bool, s: &str) -> String {
     out
 }
 
+/// xml5ever resolves a reference-shaped piece to what the WHATWG algorithm prescribes for the same
+/// characters in HTML text / in a double-quoted attribute value (computed by the reference
+/// tokenizer).  Used for numeric references and for strings that are not references at all.
+fn check_xml_ref(case: &Case) -> Result<(), String> {
+    let attr = case.ctx == "xml-ref-attr";
+    let got = xml_eval(attr, &case.text);
+    let want = if attr {
+        let c = build("dq", &case.text);
+        let rf = c01::run_ref(&c);
+        let mut v = String::new();
+        for (t, _) in rf.rec.iter() {
+            if let NTok::Tag { attrs, .. } = t {
+                if let Some((_, val)) = attrs.first() {
+                    v = val.clone();
+                }
+            }
+        }
+        v
+    } else {
+        let c = build("data", &case.text);
+        direct_text(&toks_only(&strip_errors(&c01::run_ref(&c).rec)))
+    };
+    // xml5ever turns U+0000 into U+FFFD on every path (C15); the HTML data state keeps it apart
+    let want = want.replace('\0', "\u{fffd}");
+    if got != want {
+        return Err(format!(
+            "xml5ever resolves {:?} ({}) to {got:?}; the WHATWG character-reference algorithm gives {want:?}",
+            case.text,
+            if attr { "attribute value" } else { "element content" }
+        ));
+    }
+    Ok(())
+}
+
 /// No state leaks from one reference to the next: two reference-shaped pieces separated by a
 /// space resolve exactly as each does alone (`text` holds the two pieces separated by U+0001).
 fn check_xml_seq(case: &Case) -> Result<(), String> {
@@ -203,7 +240,7 @@ fn check_table() -> Result<(), String> {
 
 pub fn run(ctx: &Ctx) -> Report {
     let mut rep = Report::new(
-        "Exhaustive enumeration: (0) web_atoms::NAMED_ENTITIES vs the frozen Python html.entities.html5 table (every name, every proper prefix, nothing extra); (1) each of the 2231 names and each name truncated by one character x {63 alphanumeric-or-semicolon extensions, 18 other followers incl. EOF, = & < space LF CR NUL quotes # and a following reference} x {data, RCDATA, double-quoted, single-quoted, unquoted attribute value} through html5ever's tokenizer, expected output from the reference character-reference algorithm (longest match over the frozen table, legacy attribute exception, missing-semicolon rule) and directly from the table for exact ';'-terminated names; (2) numeric references: every value 0..=0x110000 as hex with ';' in text, the other forms (decimal, without ';', attribute context, upper-case X) on a stride (quick 1/16, thorough every value), overflow digit strings of 1..24 digits, every value within 130 of 2^k (k up to 65), 10^k and 0x10FFFF in decimal and hex (plus trailing digits / leading zeros), leading zeros, name-character runs of length 2^k-1..2^k+2 up to 2^16 after '&', after a complete entity name and as leading zeros of numeric references, digit-less '&#'/'&#x' with followers; (3) every ';'-terminated name through xml5ever's tokenizer; every ordered pair of 29 reference-shaped pieces, in element content and in an attribute value, must resolve exactly as each piece does alone (no state leaks between references). Non-trivial: every case is a character-reference case; distinct by (context, text).",
+        "Exhaustive enumeration: (0) web_atoms::NAMED_ENTITIES vs the frozen Python html.entities.html5 table (every name, every proper prefix, nothing extra); (1) each of the 2231 names and each name truncated by one character x {63 alphanumeric-or-semicolon extensions, 18 other followers incl. EOF, = & < space LF CR NUL quotes # and a following reference} x {data, RCDATA, double-quoted, single-quoted, unquoted attribute value} through html5ever's tokenizer, expected output from the reference character-reference algorithm (longest match over the frozen table, legacy attribute exception, missing-semicolon rule) and directly from the table for exact ';'-terminated names; (2) numeric references: every value 0..=0x110000 as hex with ';' in text, the other forms (decimal, without ';', attribute context, upper-case X) on a stride (quick 1/16, thorough every value), overflow digit strings of 1..24 digits, every value within 130 of 2^k (k up to 65), 10^k and 0x10FFFF in decimal and hex (plus trailing digits / leading zeros), leading zeros, name-character runs of length 2^k-1..2^k+2 up to 2^16 after '&', after a complete entity name and as leading zeros of numeric references, digit-less '&#'/'&#x' with followers; (3) every ';'-terminated name through xml5ever's tokenizer; every ordered pair of 29 reference-shaped pieces, in element content and in an attribute value, must resolve exactly as each piece does alone (no state leaks between references); numeric references (every value on a stride, all values around the range edges, overflow strings) and digit-less / name-less non-references through xml5ever against the reference algorithm's result for the same characters. Non-trivial: every case is a character-reference case; distinct by (context, text).",
     );
     rep.assume("frozen entity table = Python 3 html.entities.html5 (2231 names, identical to the WHATWG table)");
     report_known(ctx, &mut rep, &|v| replay(&ctx.strict_clone(), v));
@@ -411,6 +448,44 @@ pub fn run(ctx: &Ctx) -> Report {
         st.nontrivial(hash64(&c), || serde_json::to_value(&c).unwrap());
         st.label("xml5ever reference pairs");
         r.map_err(|what| Failure { case: serde_json::to_value(&c).unwrap(), what })
+    });
+    all_done &= out.failures.is_empty();
+    rep.absorb(out);
+
+    // (3c) xml5ever numeric references and non-references against the WHATWG algorithm
+    let mut xr: Vec<Case> = vec![];
+    let xstride = ctx.tier.pick(64u32, 4u32);
+    for cx in ["xml-ref-text", "xml-ref-attr"] {
+        let mut v = (ctx.seed % xstride as u64) as u32;
+        while v <= 0x110000 {
+            xr.push(Case { ctx: cx.into(), text: format!("&#x{v:X};") });
+            xr.push(Case { ctx: cx.into(), text: format!("&#{v};") });
+            v += xstride;
+        }
+        for v in (0u32..0x200).chain(0xD7F0..0xE010).chain(0xFDC0..0xFE00).chain(0xFFF0..0x10010).chain(0x10FFF0..0x110010) {
+            xr.push(Case { ctx: cx.into(), text: format!("&#x{v:x};") });
+            xr.push(Case { ctx: cx.into(), text: format!("&#{v};") });
+        }
+        for t in [
+            "&#x100000041;", "&#4294967361;", "&#4294967297;", "&#99999999999;", "&#x0000000041;", "&#18446744073709551681;", "&#xFFFFFFFF;", "&#4294967295;",
+            "&#;", "&#x;", "&#X;", "&#", "&#x", "&#xZ;", "&#Z;", "&;", "&", "& ", "&&", "&=", "&#65;&#;", "&#x41;&#x;", "&#65;&#", "&#0;", "&#x0;",
+        ] {
+            xr.push(Case { ctx: cx.into(), text: t.into() });
+        }
+    }
+    // every table name (with and without its semicolon) x a few followers
+    for (name, _) in e.list.iter() {
+        for f in ["", " ", "x", "=", ";", "1", "<", "&"] {
+            xr.push(Case { ctx: "xml-ref-text".into(), text: format!("&{name}{f}") });
+            xr.push(Case { ctx: "xml-ref-attr".into(), text: format!("&{name}{f}") });
+        }
+    }
+    let out = run_exhaustive(xr.len() as u64, |i, st| {
+        let c = &xr[i as usize];
+        let r = check(c, st);
+        st.nontrivial(hash64(c), || serde_json::to_value(c).unwrap());
+        st.label("xml5ever numeric / non-reference");
+        r.map_err(|what| Failure { case: serde_json::to_value(c).unwrap(), what })
     });
     all_done &= out.failures.is_empty();
     rep.absorb(out);
